@@ -10,7 +10,12 @@ moves before each iteration (0, a few eighths, exactly timeout(), a far jump),
 and whether timeout() is consulted between iterations (which decides whether a
 new call is still staged or already in the heap when it is next touched).  A
 swarm knob performs a burst of >50 cancellations of heap-resident calls to
-reach the heap compaction branch.
+reach the heap compaction branch.  A second swarm knob makes timed calls FAIL:
+with a per-run probability a call ends by raising (after its in-call
+operations).  The reactor has to log that (twisted.logger, silenced by the
+harness) and carry on: a failing call counts as run, nothing may escape from
+runUntilCurrent(), and every clause below holds unchanged for the other calls
+that are due in that iteration.
 
 Oracle: models.timers.TimerModel (mode "reactor"), consulted on every call the
 reactor runs, at the end of every iteration, and after every operation
@@ -35,11 +40,13 @@ COMPONENTS = {"real": ["twisted.internet.base.ReactorBase.callLater/_insertNewDe
                        "main loop: the scenario calls runUntilCurrent()/timeout() itself; installWaker/doIteration are no-ops (no I/O, no threads, reactor never started)"]}
 RULE = ("run = up to 120 tape-chosen operations over up to 60 calls (callLater with dyadic delay >= 0 / cancel / reset / delay(+-) on pending or dead calls, "
         "from the top level or from inside a running call / timeout() / iteration after moving the clock by 0, k/8, exactly timeout() or a far jump), "
-        "in 30% of runs plus one burst of 60-72 callLater followed by cancellation of ~90% of them (heap compaction), then a drain; "
+        "in 30% of runs plus one burst of 60-72 callLater followed by cancellation of ~90% of them (heap compaction), "
+        "in 2/3 of runs each timed call ends by raising with probability 0.1 or 0.3 (application failure inside an iteration in which other calls may be due), then a drain; "
         "non-trivial = at least 3 calls ran AND at least one pending call was cancelled AND one was rescheduled")
 ASSUMPTIONS = ["the clock does not move while an iteration is in progress",
                "delays passed to callLater and reset are >= 0; all times are multiples of 1/8 s (exact in binary floating point)",
-               "calls rescheduled (reset/delay) or created during an iteration may run in that iteration or the next one (weaker reading of 'first iteration')"]
+               "calls rescheduled (reset/delay) or created during an iteration may run in that iteration or the next one (weaker reading of 'first iteration')",
+               "a timed call that raises has run (exactly once); its failure is the reactor's to log and excuses no other call from running in that iteration"]
 
 
 class SimTimeReactor(ReactorBase):
@@ -327,6 +334,8 @@ MUTANTS = [
     "base.py runUntilCurrent: compaction drops one live call ([...][1:])  -- caught: getDelayedCalls-exact / timeout-bound",
     "base.py DelayedCall.delay: negative delay without resetter()  -- caught: earliest-first / timeout-bound",
     "base.py DelayedCall.reset: later time applied in place (time = newTime) without re-heapifying  -- caught: earliest-first / runs-in-first-iteration / timeout-bound",
+    "base.py runUntilCurrent: failure handler entered once around the whole due-call loop instead of once per call (a failing call ends the batch)  -- caught (needs failing calls): runs-in-first-iteration",
+    "base.py runUntilCurrent: 'with logHandler:' -> 'if True:' (a failing call's exception leaves runUntilCurrent)  -- caught (needs failing calls): iteration-raised",
     "base.py _insertNewDelayedCalls: cancelled staged calls pushed into the heap anyway  -- NOT caught: behaviourally equivalent (popped cancelled calls are skipped)",
     "base.py _insertNewDelayedCalls: _cancellations not decremented for cancelled staged calls  -- NOT caught: behaviourally equivalent (only makes compaction run more often)",
 ]
